@@ -2,6 +2,7 @@ import FV.Props.Catalog
 import FV.IoSendSeq
 import FV.IoRecvRetry
 import FV.IoArb
+import FV.IoKinds
 /-! # C09 — IO faults surface as errors; nothing is lost or duplicated by them -/
 namespace FV.Props
 open FV
@@ -14,7 +15,7 @@ theorem C09_send_fault (msg : Bytes) (evs : List WriteEv) (sink0 : Bytes) :
     let r := writeAll msg evs 0 sink0 0
     ∃ j, j ≤ msg.length ∧ r.sink = sink0 ++ msg.take j ∧ r.used ≤ j + 1 ∧
       (r.out = .done → j = msg.length) ∧
-      (r.out = .brokenPipe ∨ r.out = .err → j < msg.length ∧ (r.poisoned = true ↔ j ≠ 0)) :=
+      (r.out = .brokenPipe ∨ (∃ k, r.out = .err k) → j < msg.length ∧ (r.poisoned = true ↔ j ≠ 0)) :=
   FV.C09_send_fault msg evs sink0
 
 /-- **C09 (b) for a whole session.** Whatever the script of write outcomes — accepted sizes, `Ok(0)`, errors at any position,
@@ -28,16 +29,16 @@ theorem C09_session_sink_shape (ms : List Bytes) (st : SeqSt) (hp : st.poisoned 
 /-- **C09 (c), first half.** A `recv` that ends with a read error has consumed exactly one pipe call and has kept every byte
 received so far: the occupied bytes are the same (the window may only have been moved to the front of the buffer), so the
 call can be retried and continues where it stopped. -/
-theorem C09_read_error_keeps_bytes (d : Dict) (b b' : RBuf) (rest rest' : Bytes) (evs evs' : List ReadEv) (ev : ReadEv)
-    (h : recv d (ev :: evs) b rest = (.readErr, b', rest', evs')) (hev : ev = .fail)
+theorem C09_read_error_keeps_bytes (d : Dict) (b b' : RBuf) (rest rest' : Bytes) (evs evs' : List ReadEv) (ev : ReadEv) (k k' : Nat)
+    (h : recv d (ev :: evs) b rest = (.readErr k', b', rest', evs')) (hev : ev = .fail k)
     (hi : ∃ p, d.validate b.slice = .err ⟨.insufficientSize, p⟩) :
-    b'.occ = b.occ ∧ rest' = rest ∧ evs' = evs := by
+    b'.occ = b.occ ∧ rest' = rest ∧ evs' = evs ∧ k' = k := by
   obtain ⟨p, hp⟩ := hi
   subst hev
   unfold recv at h
   simp only [hp] at h
   simp only [ne_eq, not_true_eq_false, if_false] at h
-  have hstep : readStep b .fail rest = .oom ∨ ∃ b1, readStep b .fail rest = .err b1 ∧ b1.occ = b.occ := by
+  have hstep : readStep b (.fail k) rest = .oom ∨ ∃ b1, readStep b (.fail k) rest = .err b1 k ∧ b1.occ = b.occ := by
     unfold readStep
     split
     · exact Or.inl rfl
@@ -46,8 +47,8 @@ theorem C09_read_error_keeps_bytes (d : Dict) (b b' : RBuf) (rest rest' : Bytes)
   · rw [ho] at h; simp at h
   · rw [hb1] at h
     simp only [Prod.mk.injEq, true_and] at h
-    obtain ⟨h2, h3, h4⟩ := h
-    exact ⟨by rw [← h2]; exact hocc, h3.symm, h4.symm⟩
+    obtain ⟨h1, h2, h3, h4⟩ := h
+    exact ⟨by rw [← h2]; exact hocc, h3.symm, h4.symm, by simpa using h1.symm⟩
 
 /-- **C09 (c).** For every well-formed message type with `MIN_SIZE > 0`, every list of messages, every buffer ≥ 2·largest message,
 every script of positive read sizes **with failing reads anywhere in it**: a receiver that calls `recv` again after each
@@ -67,8 +68,52 @@ theorem C09_receiver_retries_deliver (t : Ty) (h : t.WF) (hmin : 0 < t.dict.minS
   · simpa using hevs
 
 /-- non-vacuity: two `u16` messages; the first read fails, the third read fails in the middle of the second message -/
-example : recvLoopRetry u16.dict 3 [.fail, .deliver 1, .deliver 3, .fail, .deliver 9, .fail, .deliver 9] ⟨0, 4, 0, []⟩ [1,0,2,0] =
+example : recvLoopRetry u16.dict 3 [.fail 0, .deliver 1, .deliver 3, .fail 1, .deliver 9, .fail 7, .deliver 9] ⟨0, 4, 0, []⟩ [1,0,2,0] =
     [.msg [1,0], .msg [2,0], .closed] := by decide +kernel
 
-example : (writeAll [1,2,3] [.fail, .accept 3] 0 [] 0).out = .err ∧ (writeAll [1,2,3] [.fail, .accept 3] 0 [] 0).used = 1 := by decide
+example : (writeAll [1,2,3] [.fail 1, .accept 3] 0 [] 0).out = .err 1 ∧ (writeAll [1,2,3] [.fail 1, .accept 3] 0 [] 0).used = 1 := by decide
+
+/-- **C09, "fail with any `io::ErrorKind`" (send side).** The error a send returns is the error of the *first* failing write call of
+that send — every earlier call accepted at least one byte, exactly one more pipe call was made than there were successful ones, and the
+script continues right behind the failing call: no retry, no swallowed error, whatever its kind. -/
+theorem C09_send_error_is_first_failure (msg : Bytes) (evs : List WriteEv) (sink0 : Bytes) (k : Nat)
+    (h : (writeAll msg evs 0 sink0 0).out = .err k) :
+    ∃ pre, evs = pre ++ .fail k :: (writeAll msg evs 0 sink0 0).evs ∧ (∀ e ∈ pre, ∃ n, e = .accept n ∧ 0 < n) ∧
+      (writeAll msg evs 0 sink0 0).used = pre.length + 1 := by
+  obtain ⟨pre, h1, h2, h3⟩ := writeAll_err_is_first_failure msg evs 0 sink0 0 k h
+  exact ⟨pre, h1, h2, by omega⟩
+
+/-- **C09, kind-blindness of the blocking sender.** Renaming the error kinds in the script of pipe outcomes renames the kind of the
+returned error and changes nothing else: the same bytes reach the sink, the same number of calls is made, the sender is poisoned in
+exactly the same cases. (A sender that treats one kind specially — `Interrupted` as "nothing happened", say — violates this.) -/
+theorem C09_send_kind_blind (f : Nat → Nat) (msg : Bytes) (evs : List WriteEv) (sink0 : Bytes) :
+    let r := writeAll msg evs 0 sink0 0
+    let r' := writeAll msg (evs.map (WriteEv.mapKind f)) 0 sink0 0
+    r'.out = r.out.mapKind f ∧ r'.sink = r.sink ∧ r'.poisoned = r.poisoned ∧ r'.used = r.used ∧
+      r'.evs = r.evs.map (WriteEv.mapKind f) := by
+  simp only [writeAll_kind_blind, SendRes.mapKind, and_self]
+
+/-- **C09, kind-blindness of `WriteAll::poll`** (the async sender; `poll_write` and `poll_flush` errors alike). -/
+theorem C09_async_poll_kind_blind (f : Nat → Nat) (msg : Bytes) (evs : List AEv) (st : AState) :
+    apoll msg (evs.map (AEv.mapKind f)) st =
+      ((apoll msg evs st).1.mapKind f, (apoll msg evs st).2.1, (apoll msg evs st).2.2.map (AEv.mapKind f)) :=
+  apoll_kind_blind f msg evs st
+
+/-- **C09, "fail with any `io::ErrorKind`" (receive side).** A read error returned by `recv` is the error of the failing read call:
+every earlier read of this `recv` delivered bytes, and the script continues right behind the failing call. -/
+theorem C09_recv_error_is_pipes_error (d : Dict) (evs : List ReadEv) (b : RBuf) (rest : Bytes) (k : Nat) (b' : RBuf) (rest' : Bytes)
+    (evs' : List ReadEv) (h : recv d evs b rest = (.readErr k, b', rest', evs')) :
+    ∃ pre, evs = pre ++ .fail k :: evs' ∧ ∀ e ∈ pre, ∃ c, e = .deliver c :=
+  recv_err_is_pipes_error d evs b rest k b' rest' evs' h
+
+/-- **C09, kind-blindness of the blocking receiver.** The window, the bytes still in the pipe, the number of reads and the outcome
+of `recv` do not depend on the kinds the failing reads carry. -/
+theorem C09_recv_kind_blind (f : Nat → Nat) (d : Dict) (evs : List ReadEv) (b : RBuf) (rest : Bytes) :
+    recv d (evs.map (ReadEv.mapKind f)) b rest = mapRecv f (recv d evs b rest) :=
+  recv_kind_blind f d evs b rest
+
+/-- non-vacuity: a partial write, then `Interrupted` (kind 1): the send fails with that error, the sender is poisoned -/
+example : (writeAll [1,2,3] [.accept 2, .fail 1, .accept 3] 0 [] 0).out = .err 1 ∧
+    (writeAll [1,2,3] [.accept 2, .fail 1, .accept 3] 0 [] 0).poisoned = true ∧
+    (writeAll [1,2,3] [.accept 2, .fail 1, .accept 3] 0 [] 0).sink = [1,2] := by decide
 end FV.Props
